@@ -212,6 +212,95 @@ class Tr:
         return "Definition %s (self : oto) %s : res (val * oto) :=\n%s.\n" % (COQ_NAME[name], " ".join(sig), body)
 
 
+# ---------------------------------------------------------------------------------------------
+# ManyToMany.add / remove: statements on self.data / self.inv.data (dicts of set objects)
+# ---------------------------------------------------------------------------------------------
+M_METHODS = ["add", "remove"]
+M_PARAMS = {"add": ["key", "val"], "remove": ["key", "val"]}
+
+
+class TrM:
+    def msel(self, e):
+        """self.data -> MData ; self.inv.data -> MInvData"""
+        if isinstance(e, ast.Attribute) and e.attr == "data":
+            v = e.value
+            if isinstance(v, ast.Name) and v.id == "self":
+                return "MData"
+            if isinstance(v, ast.Attribute) and v.attr == "inv" and isinstance(v.value, ast.Name) and v.value.id == "self":
+                return "MInvData"
+        raise Unsupported("dict operand %s" % ast.dump(e))
+
+    def name(self, e, env):
+        if isinstance(e, ast.Name) and e.id in env:
+            return env[e.id]
+        raise Unsupported("operand %s" % ast.dump(e))
+
+    def entry(self, e, env):
+        """D[k] -> (sel, k)"""
+        if isinstance(e, ast.Subscript):
+            return self.msel(e.value), self.name(e.slice, env)
+        raise Unsupported("entry %s" % ast.dump(e))
+
+    def block(self, stmts, env):
+        if not stmts:
+            return "Ok (VNone, self)"
+        s, rest = stmts[0], stmts[1:]
+        if isinstance(s, ast.Expr) and isinstance(s.value, ast.Constant) and isinstance(s.value.value, str):
+            return self.block(rest, env)
+        if isinstance(s, ast.If) and not s.orelse:
+            te = s.test
+            if isinstance(te, ast.Compare) and len(te.ops) == 1 and isinstance(te.ops[0], ast.NotIn):
+                d = self.msel(te.comparators[0])
+                a = self.name(te.left, env)
+                return "bind (pm_contains self %s %s) (fun c =>\nif c then\n%s\nelse\n%s)" % (
+                    d, a, self.block(rest, env), self.block(s.body + rest, env))
+            if isinstance(te, ast.UnaryOp) and isinstance(te.op, ast.Not):
+                d, k = self.entry(te.operand, env)
+                return "bind (pm_truthy self %s %s) (fun c =>\nif c then\n%s\nelse\n%s)" % (
+                    d, k, self.block(rest, env), self.block(s.body + rest, env))
+            raise Unsupported("if test %s" % ast.dump(te))
+        if isinstance(s, ast.Assign) and len(s.targets) == 1 and isinstance(s.targets[0], ast.Subscript):
+            v = s.value
+            if isinstance(v, ast.Call) and isinstance(v.func, ast.Name) and v.func.id == "set" and not v.args and not v.keywords:
+                d, k = self.entry(s.targets[0], env)
+                return "let self := pm_set_empty self %s %s in\n%s" % (d, k, self.block(rest, env))
+            raise Unsupported("assignment %s" % ast.dump(s))
+        if isinstance(s, ast.Expr) and isinstance(s.value, ast.Call) and isinstance(s.value.func, ast.Attribute) \
+                and s.value.func.attr in ("add", "remove") and len(s.value.args) == 1 and not s.value.keywords:
+            d, k = self.entry(s.value.func.value, env)
+            a = self.name(s.value.args[0], env)
+            prim = "pm_set_add" if s.value.func.attr == "add" else "pm_set_remove"
+            return "bind (%s self %s %s %s) (fun self =>\n%s)" % (prim, d, k, a, self.block(rest, env))
+        if isinstance(s, ast.Delete) and len(s.targets) == 1:
+            d, k = self.entry(s.targets[0], env)
+            return "bind (pm_delitem self %s %s) (fun self =>\n%s)" % (d, k, self.block(rest, env))
+        raise Unsupported("statement %s" % ast.dump(s)[:200])
+
+    def method(self, node, name):
+        a = node.args
+        if a.vararg or a.kwarg or a.kwonlyargs or a.posonlyargs or a.defaults or node.decorator_list:
+            raise Unsupported("%s: parameters" % name)
+        params = [x.arg for x in a.args]
+        if params != ["self"] + M_PARAMS[name]:
+            raise Unsupported("%s: parameters %s" % (name, params))
+        env = {p: "p_" + p for p in M_PARAMS[name]}
+        return "Definition srcm_%s (self : m2m) %s : res (val * m2m) :=\n%s.\n" % (
+            name, " ".join("(p_%s : nat)" % p for p in M_PARAMS[name]), self.block(list(node.body), env))
+
+
+def generate_m2m(tree):
+    cls = [n for n in tree.body if isinstance(n, ast.ClassDef) and n.name == "ManyToMany"]
+    if len(cls) != 1 or cls[0].bases:
+        raise Unsupported("class ManyToMany not found / has base classes")
+    defined = {n.name: n for n in cls[0].body if isinstance(n, ast.FunctionDef)}
+    out = []
+    for m in M_METHODS:
+        if m not in defined:
+            raise Unsupported("ManyToMany.%s missing" % m)
+        out.append(TrM().method(defined[m], m))
+    return out
+
+
 def generate(repo):
     path = os.path.join(repo, "boltons", "dictutils.py")
     tree = ast.parse(open(path).read())
@@ -242,4 +331,6 @@ def generate(repo):
             raise Unsupported("OneToOne.%s is not a plain method" % m)
         out.append(Tr(done).method(node, m))
         done.add(m)
+    out.append("(* class ManyToMany: add / remove *)")
+    out += generate_m2m(tree)
     return "\n".join(out)
